@@ -19,9 +19,15 @@ meta["suite_with_change"] = ([l for l in r.stdout.strip().splitlines() if "passe
 r1 = sh("/venv/bin/python demo.py", cwd=wt, env=env)
 meta["demo_with_change_exit"] = r1.returncode
 meta["demo_with_change_output"] = (r1.stdout + r1.stderr)[-600:]
-sh("git stash -- src", cwd=wt)
+# (no git stash: the stash is shared by all worktrees of a repository)
+saved = os.path.join(wt, ".seed-change.diff")
+open(saved, "w").write(diff)
+assert sh("git checkout -- src", cwd=wt).returncode == 0
 r0 = sh("/venv/bin/python demo.py", cwd=wt, env=env)
-sh("git stash pop", cwd=wt)
+a_ = sh("git apply %s" % saved, cwd=wt)
+assert a_.returncode == 0, a_.stderr
+os.remove(saved)
+assert sh("git diff -- src", cwd=wt).stdout == diff, "worktree change not restored"
 meta["demo_without_change_exit"] = r0.returncode
 print("suite:", meta["suite_with_change"], "| demo with change:", r1.returncode, "| without:", r0.returncode)
 ok = "passed" in meta["suite_with_change"] and "failed" not in meta["suite_with_change"] and r1.returncode == 1 and r0.returncode == 0
